@@ -1,0 +1,233 @@
+//go:build verif
+
+package http2
+
+import (
+	"encoding/binary"
+	"fmt"
+)
+
+// Constructors and inspectors for the verification harness (/verif), which
+// drives the write schedulers from outside the package. Compiled only with
+// the "verif" build tag; nothing here is used by the package itself.
+
+// VerifConn stands in for the serverConn a stream belongs to: it carries the
+// connection-level send window and the peer's max frame size.
+type VerifConn struct{ sc *serverConn }
+
+// VerifStream is a stream with a send window.
+type VerifStream struct{ st *stream }
+
+func VerifNewConn(connWindow int32, maxFrameSize int32) *VerifConn {
+	sc := &serverConn{maxFrameSize: maxFrameSize}
+	sc.flow.add(connWindow)
+	return &VerifConn{sc: sc}
+}
+
+func (c *VerifConn) SetMaxFrameSize(n int32)  { c.sc.maxFrameSize = n }
+func (c *VerifConn) MaxFrameSize() int32      { return c.sc.maxFrameSize }
+func (c *VerifConn) AddWindow(n int32) bool   { return c.sc.flow.add(n) }
+func (c *VerifConn) Window() int32            { return c.sc.flow.n }
+func (s *VerifStream) AddWindow(n int32) bool { return s.st.flow.add(n) }
+func (s *VerifStream) Window() int32          { return s.st.flow.n }
+func (s *VerifStream) Available() int32       { return s.st.flow.available() }
+func (s *VerifStream) ID() uint32             { return s.st.id }
+
+func (c *VerifConn) NewStream(id uint32, window int32) *VerifStream {
+	st := &stream{sc: c.sc, id: id}
+	st.flow.conn = &c.sc.flow
+	st.flow.add(window)
+	return &VerifStream{st: st}
+}
+
+// VerifData builds a DATA write request on s.
+func VerifData(s *VerifStream, p []byte, endStream bool) FrameWriteRequest {
+	return FrameWriteRequest{
+		stream: s.st,
+		write:  &writeData{streamID: s.st.id, p: p, endStream: endStream},
+	}
+}
+
+// VerifHeaders builds a HEADERS write request on s; tag is carried in the status code.
+func VerifHeaders(s *VerifStream, tag int, endStream bool) FrameWriteRequest {
+	return FrameWriteRequest{
+		stream: s.st,
+		write:  &writeResHeaders{streamID: s.st.id, httpResCode: tag, endStream: endStream},
+	}
+}
+
+// VerifControl builds a connection-level control write request (a PING ack carrying tag).
+func VerifControl(tag uint64) FrameWriteRequest {
+	pf := &PingFrame{}
+	binary.BigEndian.PutUint64(pf.Data[:], tag)
+	return FrameWriteRequest{write: writePingAck{pf}}
+}
+
+// VerifRST builds a RST_STREAM write request the way serverConn.resetStream does
+// (no stream pointer); tag is carried in the error code.
+func VerifRST(streamID uint32, tag uint32) FrameWriteRequest {
+	return FrameWriteRequest{write: StreamError{StreamID: streamID, Code: ErrCode(tag)}}
+}
+
+// VerifDesc describes a popped write request.
+type VerifDesc struct {
+	Kind      string // "data", "headers", "control", "rst", "other"
+	StreamID  uint32
+	Data      []byte
+	EndStream bool
+	Tag       uint64
+	IsControl bool
+}
+
+func VerifDescribe(wr FrameWriteRequest) VerifDesc {
+	d := VerifDesc{StreamID: wr.StreamID(), IsControl: wr.isControl()}
+	switch w := wr.write.(type) {
+	case *writeData:
+		d.Kind, d.Data, d.EndStream = "data", w.p, w.endStream
+	case *writeResHeaders:
+		d.Kind, d.Tag, d.EndStream = "headers", uint64(w.httpResCode), w.endStream
+	case writePingAck:
+		d.Kind, d.Tag = "control", binary.BigEndian.Uint64(w.pf.Data[:])
+	case StreamError:
+		d.Kind, d.Tag = "rst", uint64(w.Code)
+	default:
+		d.Kind = "other"
+	}
+	return d
+}
+
+// VerifNewRoundRobin exposes the unexported round-robin scheduler constructor.
+func VerifNewRoundRobin() WriteScheduler { return newRoundRobinWriteScheduler() }
+
+// VerifNode is one node of the priority tree.
+type VerifNode struct {
+	ID     uint32
+	Parent uint32
+	Weight uint8
+	State  int // 0 open, 1 closed, 2 idle
+	Kids   []uint32
+	QLen   int
+}
+
+// VerifWalkPriority returns the priority tree reachable from the root and the
+// ids registered in the node map, and reports structural problems (cycles,
+// broken sibling links, parent pointers that disagree, unreachable nodes).
+func VerifWalkPriority(ws WriteScheduler) (nodes []VerifNode, problems []string, ok bool) {
+	p, isPrio := ws.(*priorityWriteScheduler)
+	if !isPrio {
+		return nil, nil, false
+	}
+	seen := map[*priorityNode]bool{}
+	var walk func(n *priorityNode, depth int)
+	walk = func(n *priorityNode, depth int) {
+		if seen[n] {
+			problems = append(problems, fmt.Sprintf("node %d reached twice (cycle or shared child)", n.id))
+			return
+		}
+		seen[n] = true
+		vn := VerifNode{ID: n.id, Weight: n.weight, State: int(n.state), QLen: len(n.q.s)}
+		if n.parent != nil {
+			vn.Parent = n.parent.id
+		}
+		var prev *priorityNode
+		cnt := 0
+		for k := n.kids; k != nil; k = k.next {
+			cnt++
+			if cnt > len(p.nodes)+1 {
+				problems = append(problems, fmt.Sprintf("sibling list of %d does not terminate", n.id))
+				break
+			}
+			if k.parent != n {
+				problems = append(problems, fmt.Sprintf("kid %d of %d has parent pointer elsewhere", k.id, n.id))
+			}
+			if k.prev != prev {
+				problems = append(problems, fmt.Sprintf("kid %d of %d has a wrong prev link", k.id, n.id))
+			}
+			prev = k
+			vn.Kids = append(vn.Kids, k.id)
+		}
+		nodes = append(nodes, vn)
+		for k, c := n.kids, 0; k != nil && c <= len(p.nodes); k, c = k.next, c+1 {
+			walk(k, depth+1)
+		}
+	}
+	if p.root.parent != nil {
+		problems = append(problems, "root has a parent")
+	}
+	if p.nodes[0] != &p.root {
+		problems = append(problems, "nodes[0] is not the root")
+	}
+	walk(&p.root, 0)
+	for id, n := range p.nodes {
+		if n.id != id {
+			problems = append(problems, fmt.Sprintf("nodes[%d] has id %d", id, n.id))
+		}
+		if !seen[n] {
+			problems = append(problems, fmt.Sprintf("node %d is registered but not reachable from the root", id))
+		}
+	}
+	for n := range seen {
+		if p.nodes[n.id] != n {
+			problems = append(problems, fmt.Sprintf("node %d is in the tree but not registered", n.id))
+		}
+	}
+	for _, n := range p.closedNodes {
+		if n.state != priorityNodeClosed {
+			problems = append(problems, fmt.Sprintf("node %d in the closed-node list has state %d", n.id, n.state))
+		}
+	}
+	return nodes, problems, true
+}
+
+// VerifIdleList returns the ids (and states) kept in the idle-node retention list.
+func VerifIdleList(ws WriteScheduler) (ids []uint32, states []int) {
+	p, isPrio := ws.(*priorityWriteScheduler)
+	if !isPrio {
+		return nil, nil
+	}
+	for _, n := range p.idleNodes {
+		ids = append(ids, n.id)
+		states = append(states, int(n.state))
+	}
+	return
+}
+
+// VerifWalkRoundRobin returns the stream ids of the ring starting at head and
+// reports structural problems.
+func VerifWalkRoundRobin(ws WriteScheduler) (ring []uint32, problems []string, ok bool) {
+	r, isRR := ws.(*roundRobinWriteScheduler)
+	if !isRR {
+		return nil, nil, false
+	}
+	idOf := map[*writeQueue]uint32{}
+	for id, q := range r.streams {
+		idOf[q] = id
+	}
+	if r.head == nil {
+		if len(r.streams) != 0 {
+			problems = append(problems, fmt.Sprintf("head is nil with %d streams registered", len(r.streams)))
+		}
+		return nil, problems, true
+	}
+	q := r.head
+	for i := 0; i <= len(r.streams); i++ {
+		id, known := idOf[q]
+		if !known {
+			problems = append(problems, "ring contains a queue that is not registered")
+			break
+		}
+		ring = append(ring, id)
+		if q.next == nil || q.next.prev != q {
+			problems = append(problems, fmt.Sprintf("broken ring links at stream %d", id))
+			break
+		}
+		q = q.next
+		if q == r.head {
+			break
+		}
+	}
+	if len(ring) != len(r.streams) {
+		problems = append(problems, fmt.Sprintf("ring has %d queues, %d streams registered", len(ring), len(r.streams)))
+	}
+	return ring, problems, true
+}
